@@ -16,6 +16,7 @@ func init() {
 			{Test: "TestC01_Wire", Quick: 1500, Thorough: 160000},
 			{Test: "TestC01_Stdio", Quick: 1200, Thorough: 20000, Shards: 2},
 			{Test: "TestC01_StdioRT", Quick: 60, Thorough: 2000, Shards: 4},
+			{Test: "TestC01_SessionIDRT", Quick: 40, Thorough: 1000, Shards: 4},
 		},
 	})
 }
